@@ -322,6 +322,29 @@ Proof.
     rewrite (interp_vt_lay x st pkg _ v Hs Hu Hv). reflexivity.
 Qed.
 
+(* the printer before fix 5e02f98: message t.v1.string {} and a field of that type in message t.v1.A is
+   printed "string", which is read back as the scalar type; message t.v1.option printed "option", with which
+   the message body "option f = 1 ;" is read as an option statement, not as the field *)
+Definition kw_pkg : qname := [[116]; [118; 49]].                                 (* t.v1 *)
+Definition kw_string : ident := [115;116;114;105;110;103].
+Definition kw_table : xsymtab :=
+  {| x_types := [(kw_pkg, [[65]]); (kw_pkg, [kw_string]); (kw_pkg, [kw_option])]; x_pkgs := [kw_pkg] |}.
+
+Theorem keyword_previous_refuted :
+  context_ref_name_nokw (to_symtab kw_table) kw_pkg [[65]] kw_pkg [kw_string] = {| pn_abs := false; pn_name := [kw_string] |}
+  /\ interp_vt kw_table kw_pkg [[65]] (context_ref_name_nokw (to_symtab kw_table) kw_pkg [[65]] kw_pkg [kw_string])
+     = Some (DScalar kw_string)
+  /\ context_ref_name_nokw (to_symtab kw_table) kw_pkg [[65]] kw_pkg [kw_option] = {| pn_abs := false; pn_name := [kw_option] |}
+  /\ (let f := {| sf_cm := no_cmt; sf_label := LNone;
+                   sf_type := SNamed (context_ref_name_nokw (to_symtab kw_table) kw_pkg [[65]] kw_pkg [kw_option]);
+                   sf_name := [102]; sf_num := 1; sf_opts := [] |} in
+      parse_elem 3 (emit_elem (SMsg no_cmt [65] [] [SField f]))
+      = Some (SMsg no_cmt [65] [(OPlain [102], RScalar (TLit [49]))] [], []))
+  /\ context_ref_name_safe (to_symtab kw_table) kw_pkg [[65]] kw_pkg [kw_string] = {| pn_abs := true; pn_name := kw_pkg ++ [kw_string] |}
+  /\ interp_vt kw_table kw_pkg [[65]] (context_ref_name_safe (to_symtab kw_table) kw_pkg [[65]] kw_pkg [kw_string])
+     = Some (DRef kw_pkg [kw_string]).
+Proof. repeat split; vm_compute; reflexivity. Qed.
+
 (* the laid-out type is well-formed for the parser *)
 Lemma scalar_kind_not_kw k : is_scalar_kind k = true ->
   ident_eqb k kw_repeated = false /\ ident_eqb k kw_optional = false /\ ident_eqb k kw_option = false.
